@@ -329,7 +329,10 @@ def check(scn, hist):
         budget = 100 if op['op'] == 'lcall' else (0 if op.get('m') == 'query_statusbyte' else 25)
         late = any(q.get('plan') and any(d > budget for d in q['plan'].get('delay', []))
                    for q in rec['requests'])
-        faulty = faulty or late
+        # lines of an earlier, faulted request that are still on their way when this call starts make this
+        # call's replies unreliable too (a version probe may read one of them): judged like a faulty call
+        stale = i > 0 and any(hist.ops[i - 1]['pending'].values())
+        faulty = faulty or late or stale
         if op['op'] == 'lcall' and op['f'].startswith('ebb_motion.'):
             fn = op['f'].split('.')[1]
             if fn not in LEGACY_SIG:
